@@ -333,6 +333,42 @@ structure MErr where
   path : Text
 deriving Repr, DecidableEq
 
+/-! ## the match package: matcher values and the document libraries as parameters -/
+
+/-- `gjson.Result` as far as the matchers look at it -/
+structure GResult where
+  «exists» : Bool
+  value : Text        -- `r.Value()`: a Go value, represented by an opaque rendering
+deriving Repr, DecidableEq
+
+/-- a parsed YAML file (`*ast.File`), a compiled path (`*yaml.Path`), a node: opaque -/
+abbrev YFile := Text
+abbrev YPath := Text
+abbrev YNode := Text
+
+/-- `match.anyMatcher` -/
+structure AnyMatcher where
+  paths : List Text
+  placeholder : Text
+  errOnMissingPath : Bool
+  name : Text
+deriving Repr, DecidableEq
+
+/-- `match.typeMatcher[T]` (the type parameter is carried by `expectedType`) -/
+structure TypeMatcher where
+  paths : List Text
+  errOnMissingPath : Bool
+  name : Text
+  expectedType : Text
+deriving Repr, DecidableEq
+
+/-- `match.customMatcher` -/
+structure CustomMatcher where
+  callback : Text → Text × Err
+  errOnMissingPath : Bool
+  name : Text
+  path : Text
+
 /-- everything a Match* call can read or change -/
 structure St where
   env : Generated.Env
